@@ -693,6 +693,50 @@ impl RenetClient {
     }
 }
 
+/// Verification hooks: read-only accessors, plus one setter used only to start a session with
+/// large counters (varint growth cannot be reached honestly in finite time).
+#[cfg(feature = "verif")]
+impl RenetClient {
+    /// Bytes currently accounted to the receive side of the channel.
+    pub fn verif_receive_memory(&self, channel_id: u8) -> Option<usize> {
+        if let Some(channel) = self.receive_reliable_channels.get(&channel_id) {
+            Some(channel.verif_memory_usage())
+        } else {
+            self.receive_unreliable_channels.get(&channel_id).map(|c| c.verif_memory_usage())
+        }
+    }
+
+    /// Ids of the reliable messages still unacknowledged in the send channel.
+    pub fn verif_unacked_ids(&self, channel_id: u8) -> Option<Vec<u64>> {
+        self.send_reliable_channels.get(&channel_id).map(|c| c.verif_unacked_ids())
+    }
+
+    /// Packet sequence ranges received and not yet known to be acknowledged.
+    pub fn verif_pending_acks(&self) -> Vec<Range<u64>> {
+        self.pending_acks.clone()
+    }
+
+    /// Sequence numbers of sent packets still tracked for acknowledgement.
+    pub fn verif_sent_packets(&self) -> Vec<u64> {
+        self.sent_packets.keys().copied().collect()
+    }
+
+    /// Starts the packet sequence and every message id counter (send and receive side) at the given values.
+    /// Must be called on both endpoints before any traffic.
+    pub fn verif_set_counters(&mut self, packet_sequence: u64, message_id_base: u64) {
+        self.packet_sequence = packet_sequence;
+        for channel in self.send_reliable_channels.values_mut() {
+            channel.verif_set_next_message_id(message_id_base);
+        }
+        for channel in self.send_unreliable_channels.values_mut() {
+            channel.verif_set_sliced_message_id(message_id_base);
+        }
+        for channel in self.receive_reliable_channels.values_mut() {
+            channel.verif_set_oldest_pending_message_id(message_id_base);
+        }
+    }
+}
+
 #[cfg(test)]
 mod tests {
     use super::*;
